@@ -205,7 +205,7 @@ class Result(object):
     """everything observable about one solve"""
     __slots__ = ('verdict', 'exc', 'solution', 'unimpl', 'need_inputs', 'blocked', 'prompts',
                  'log', 'forms', 'final_inputs', 'solver', 'refused', 'unimpl_list', 'need_inputs_lists',
-                 'blocked_lists', 'schedule')
+                 'blocked_lists', 'schedule', 'store')
 
     def canon(self):
         if self.exc is not None:
@@ -234,13 +234,14 @@ def config_to_dict(cp):
 
 
 def run_solve(form_list, requested, file_inputs, answer=None, schedule=None, instrument=True,
-              layout=None, keep_solver=False):
+              layout=None, keep_solver=False, store=None):
     """One execution of the real solver.
     answer: None (no prompt function) or callable(input_obj, needed_by) -> string | None (refuse)
     """
     log = [] if instrument else None
     fl = instrumented(form_list, log) if instrument else list(form_list)
-    store = make_store(file_inputs, layout)
+    if store is None:
+        store = make_store(file_inputs, layout)
     prompts = []
     r = Result()
     r.refused = False
@@ -292,6 +293,7 @@ def run_solve(form_list, requested, file_inputs, answer=None, schedule=None, ins
         r.unimpl, r.need_inputs, r.blocked = set(), {}, {}
         r.unimpl_list, r.need_inputs_lists, r.blocked_lists = [], {}, {}
     r.solver = s if keep_solver else None
+    r.store = store
     return r
 
 
